@@ -911,6 +911,15 @@ trait Shape<'gc>: gc_arena::collect::DynCollect<'gc> { fn area(&self) -> i32; }
 gc_arena::__dyn_collect!(dyn Shape<'gc>);
 fn main() {}
 ''')
+P("C13", "dyn_collect_on_sized_generic_type", "E0119|E0277|E0275", "dyn_collect! (the arm with declared parameters) applied to a sized generic type: as dyn_collect_on_sized_type, through the other macro arm", '''
+struct PlainCellOf<'gc, T> { cell: RefCell<Option<Gc<'gc, T>>> }
+#[cfg(bad)]
+gc_arena::__dyn_collect!(<T> PlainCellOf<'gc, T> where T: Clone);
+trait ShapeOf<'gc, T>: gc_arena::collect::DynCollect<'gc> { fn area(&self) -> T; }
+#[cfg(not(bad))]
+gc_arena::__dyn_collect!(<T> dyn ShapeOf<'gc, T> where T: Clone);
+fn main() {}
+''')
 P("C19", "unsize_deref_string_str", "E0308|E0277", "unsize! through a Deref coercion (String to str): the result would point into the heap buffer, not at the Gc value", '''
 use gc_arena::unsize;
 fn main() {
